@@ -239,7 +239,7 @@ def run(ctx):
 				if not ctx.time_left(0.7):
 					break
 				sub({'files': files, 'mode': 'controlled', 'order': list(order)}, 'controlled-failing-file')
-	ctx.exhaustive = [f'all completion orders of n <= {min(nmax, 4)} files (sampled above), failing file at every position']
+	ctx.exhaustive = [f'all completion orders of n <= {4 if ctx.tier == "quick" else 6} files (all files readable)', 'all completion orders of n <= 3 files with a failing file at every position (larger n: sampled orders)']
 	# size skew in whole-MiB steps (later / larger files finish in a different order than they were given)
 	for sizes in ([0.05, 2.3, 1.2], [1.2, 0.05, 2.3], [2.3, 1.2, 0.05], [0.05, 3.2, 1.1, 2.1], [1.1, 2.2, 0.1]):
 		if not ctx.time_left(0.75):
